@@ -66,6 +66,27 @@ class Native:
             return None, r.stdout
         return o, r.stdout
 
+    A64_AS = ["clang", "--target=aarch64-linux-gnu", "-c", "-x", "assembler"]
+
+    def a64_available(self):
+        """clang's integrated assembler has an AArch64 target in this sandbox (no GNU cross-binutils are installed)"""
+        if not hasattr(self, "_a64"):
+            t = os.path.join(self.dir, "probe_a64.s")
+            open(t, "w").write("    ADD X1, X1, 8\n    RET\n")
+            try:
+                self._a64 = subprocess.run(self.A64_AS + [t, "-o", os.devnull], stdout=subprocess.PIPE, stderr=subprocess.STDOUT).returncode == 0
+            except OSError:
+                self._a64 = False
+        return self._a64
+
+    def assemble_a64(self, name, asm_text):
+        """-> (accepted?, diagnostics): the emitted AArch64 text is GNU syntax as it stands"""
+        s = os.path.join(self.dir, name + ".a64.s")
+        open(s, "w").write(asm_text)
+        r = subprocess.run(self.A64_AS + [s, "-o", os.devnull], stdout=subprocess.PIPE, stderr=subprocess.STDOUT, text=True)
+        os.unlink(s)
+        return r.returncode == 0, r.stdout
+
     def link(self, name, obj, nargs, extra=()):
         b = os.path.join(self.dir, name + ".bin")
         if nargs not in self.drvobj:
